@@ -207,9 +207,25 @@ def gen_scalar_container_case(r):
     return c
 
 
+YAML_WS = [("body: |\n  line one\n  line two\n", 'body'), ("k: |+\n  text\n\n", 'k'), ("- >\n  folded text\n", '0'),
+           ("  a: 1\n  b: 2\n", 'a'), ("\n\na: 1\n", 'a'), ("a: 'x '\n", 'a'), ("t: |-\n  kept\n  \n", 't'), ("  - 1\n  - 2\n", '1')]
+
+
+def gen_yaml_whitespace_case(r):
+    """YAML documents whose leading / trailing whitespace is part of the data (block scalars at the end, an indented first line):
+    the target text is loaded as it is"""
+    text, spec = r.choice(YAML_WS)
+    import yaml
+    return {'kind': 'run', 'target': yaml.safe_load(text), 'indent': r.choice([None, 0]), 'scalar': r.random() < 0.3, 'tfmt': r.choice(['yaml', 'yml']),
+            'sfmt': 'python', 'via': 'inproc', 'spec_text': spec, 'target_text': text, 'spec_src': 'arg',
+            'target_src': r.choice(['arg', 'file', 'stdin'])}
+
+
 def gen_case(r):
     if r.random() < 0.04:
         return gen_scalar_container_case(r)
+    if r.random() < 0.04:
+        return gen_yaml_whitespace_case(r)
     t = gen_target(r, 3)
     if not isinstance(t, (dict, list)) and r.random() < 0.7:
         t = {'a': t}                      # otherwise a top-level scalar (0, '', null, false, ...): only Path() / () specs make sense
